@@ -7,36 +7,32 @@ From ArcGen Require Import Params_Buffer.
 Import ListNotations.
 Open Scope Z_scope.
 
-(* the hour length really is one hour of microseconds and the other constants are sane *)
-Theorem C03_params_ok :
-  micro_per_hour = 3600 * 1000000 /\ 0 < micro_per_hour /\ 0 <= radix_skip_threshold /\ 0 < schema_evolution_max_iters.
-Proof. vm_compute. repeat split; intro; discriminate. Qed.
-Print Assumptions C03_params_ok.
-
-(* the deployed bucket function is the floor to the hour, for every int64 (indeed every) timestamp *)
-Theorem C03_deployed_bucket_floor : forall t,
-  let b := hour_bucket_id micro_per_hour t in b * micro_per_hour <= t < (b + 1) * micro_per_hour.
-Proof. intros t. apply C03_bucket_floor. destruct C03_params_ok as [_ [Hp _]]. exact Hp. Qed.
-Print Assumptions C03_deployed_bucket_floor.
-
-(* the deployed permuteByTime (with the threshold found in the source) *)
-Theorem C03_deployed_sort : forall ts, Forall int64 ts ->
-  match permute_by_time radix_skip_threshold ts with
-  | None => StronglySorted Z.le ts
-  | Some p => Permutation p (seq 0 (length ts)) /\ StronglySorted (tlt ts) p
-  end.
-Proof. intros ts. apply C03_sort_perm_sorted. Qed.
-Print Assumptions C03_deployed_sort.
-
-(* the guarded end-to-end statement at the deployed constants *)
-Theorem C03_deployed_stores_all : forall cfg ls s,
-  brun micro_per_hour radix_skip_threshold cfg binit ls = Some s ->
-  forallb (fun l : label N batch => no_replay l && outcome_ok l) ls = true ->
-  fix_drain cfg = true -> phase s = PClosed -> clean s = true -> inputs_ok s ->
-  (forall t r, In (t, r) (dropped s) -> r <> DQueueFull) ->
-  dropped s = [] /\ buffers s = [] /\ queue s = [] /\ busy s = [] /\
-  Permutation (accepted s) (stored_items s) /\
-  PermutationA row_equiv (flat_map (fun f => rows_of (snd (snd f))) (stored_kfiles s))
-                         (flat_map rows_of (map it_b (accepted s))).
-Proof. apply C03_flush_close_stores_all. destruct C03_params_ok as [_ [Hp _]]. exact Hp. Qed.
-Print Assumptions C03_deployed_stores_all.
+(* PRIMARY obligation: at the constants of the current source (microPerHour, radixSkipThreshold,
+   schemaEvolutionMaxIters as evaluated by the Go compiler) the hour length is one hour of
+   microseconds, the bucket function is the floor, permuteByTime sorts, and the end-to-end statement
+   C03_accepted_rows_stored_once holds *)
+Theorem C03_deployed :
+  (micro_per_hour = 3600 * 1000000 /\ 0 < micro_per_hour /\ 0 <= radix_skip_threshold /\ 0 < schema_evolution_max_iters) /\
+  (forall t, let b := hour_bucket_id micro_per_hour t in b * micro_per_hour <= t < (b + 1) * micro_per_hour) /\
+  (forall ts, Forall int64 ts ->
+     match permute_by_time radix_skip_threshold ts with
+     | None => StronglySorted Z.le ts
+     | Some p => Permutation p (seq 0 (length ts)) /\ StronglySorted (tlt ts) p
+     end) /\
+  (forall cfg ls s,
+     brun micro_per_hour radix_skip_threshold cfg binit ls = Some s ->
+     forallb (fun l : label N batch => no_replay l && outcome_ok l) ls = true ->
+     fix_drain cfg = true -> phase s = PClosed -> clean s = true -> inputs_ok s ->
+     (forall t r, In (t, r) (dropped s) -> r <> DQueueFull) ->
+     Permutation (accepted s) (stored_items s) /\
+     PermutationA row_equiv (flat_map (fun f => rows_of (snd (snd f))) (stored_kfiles s)) (flat_map rows_of (map it_b (accepted s))) /\
+     (forall r, In r (stored s) ->
+        (forall it, In it (s_items r) -> it_key it = s_key r) /\ NoDup (map fst (s_files r)) /\ Forall (file_ok micro_per_hour) (s_files r)) /\
+     buffers s = [] /\ queue s = [] /\ busy s = [] /\ dropped s = []).
+Proof.
+  assert (P : micro_per_hour = 3600 * 1000000 /\ 0 < micro_per_hour /\ 0 <= radix_skip_threshold /\ 0 < schema_evolution_max_iters)
+    by (vm_compute; repeat split; intro; discriminate).
+  split; [exact P|]. destruct P as [_ [Hp _]]. split; [intros t; apply C03_bucket_floor; exact Hp|].
+  split; [intros ts; apply C03_sort_perm_sorted|]. apply C03_accepted_rows_stored_once. exact Hp.
+Qed.
+Print Assumptions C03_deployed.
